@@ -554,6 +554,11 @@ func (x *Exec) step(st *State, fr *Frame, ins ssa.Instruction) bool {
 		fr.env[i] = Fn{Fn: fn, Bind: bind, T: t}
 	case *ssa.MakeMap:
 		fr.env[i] = x.makeMap(st, i.Type())
+	case *ssa.MakeChan:
+		// a channel is an identity (a fresh region number) that is open: chclosed[ch] == 0
+		ch := st.allocRegion("chan")
+		st.assume(Eq(Select(ghostGet(st.ghost, "chclosed", SArr), ch), Int(0)))
+		fr.env[i] = Sc{ch}
 	case *ssa.Lookup:
 		fr.env[i] = x.lookup(st, fr, i)
 	case *ssa.MapUpdate:
@@ -717,6 +722,12 @@ func (x *Exec) alloc(st *State, t types.Type, hint string) Ptr {
 		return Ptr{R: r, I: Int(0), Root: at.Elem(), Elem: t, ArrRegion: true}
 	}
 	x.zeroRegion(st, t, r)
+	if _, isStruct := t.Underlying().(*types.Struct); isStruct {
+		// the zero value of a mutex is unlocked: a freshly allocated object is not held
+		// (an assumption about the ghost array at an index nothing has constrained yet, not a store: the proof
+		// obligations about other objects keep their syntactic shape)
+		st.assume(Eq(Select(ghostGet(st.ghost, "held", SArr), r), Int(0)))
+	}
 	return Ptr{R: r, I: Int(0), Root: t, Elem: t}
 }
 
